@@ -651,6 +651,9 @@ impl Engine for Text {
         ev.note = note;
         ev
     }
+    fn exec_raw(&self, _prop: &str, c: &Case) -> Outs {
+        exec(c)
+    }
     fn selftest(&self) -> Result<u64, String> {
         // tokeniser / rounding on hand-written vectors
         let l = L::parse("U4F4").unwrap();
